@@ -31,7 +31,7 @@ ASSUMPTIONS = [
 PROBES = ["dirruns", "inputs_ge_3", "cross_file_var_ref", "stale_output_present", "repeat_run_checked", "enum_runs",
           "fault:non-utf8", "fault:empty", "fault:dir-named-css", "fault:dangling-link", "fault:unserialisable",
           "fault:eacces", "fault:eio", "fault:late-unserialisable", "fault:out-is-dir", "fault:eacces-out",
-          "fault_first", "fault_middle", "fault_last", "cm_named_input_present", "late_fault_defines_props_others_reference", "symlinked_stylesheet_input", "duplicate_content_files",
+          "fault_first", "fault_middle", "fault_last", "cm_named_input_present", "late_fault_defines_props_others_reference", "symlinked_stylesheet_input", "duplicate_content_files", "same_translucent_text_in_several_files", "bom_files",
           "outputs_compared"]
 
 FAULT_KINDS = ("non-utf8", "empty", "dir-named-css", "dangling-link", "unserialisable", "eacces", "eio",
@@ -41,7 +41,7 @@ FAULT_KINDS = ("non-utf8", "empty", "dir-named-css", "dangling-link", "unseriali
 LATE_KINDS = ("late-unserialisable", "out-is-dir", "eacces-out")
 C18_FEATURES = ("vars", "var-fallback", "var-undefined", "var-chain", "var-shared", "root-direct-color", "root-and-html",
                 "important", "repeat-decl", "nesting", "bg-var", "keywords", "comments", "no-color-rules", "opaque-atrules",
-                "non-ascii")
+                "non-ascii", "alpha-text", "bom", "crlf", "var-names", "own-colour-elsewhere")
 _NAMES = ("a.css", "b.css", "main.css", "style.css", "thème.css", "my style.css", "z9.css", "reset.min.css", "c_cm2.css", ".hidden.css", "a.b.c.css")
 _DIRS = ("", "", "sub/", "sub/deep/", "x.d/", "v1.css/", "pkg_cm.css/", "sub dir/", "theme[v2]/", "a*b/", "q?/.cfg/")
 _UNSER = ("a{} }", "}", "a{color:#777} ]", "@media x{ a{color:#777} } }\n.b{color:#888}")
@@ -134,6 +134,17 @@ def generate(rseed, tier, idx):
                     {"p": "color", "v": v, "imp": ""}] + ([{"p": "background-color", "v": "var(--x-shared)", "imp": ""}] if g.random() < 0.2 else [])})
                 tree[n]["text"] = gen.render(tree[n]["ast"])
                 tree[n]["xref"] = True
+    # the very same translucent text spelling in several files, each time over another background
+    if len(tree) >= 2 and g.random() < 0.35:
+        txt = gen.spell_alpha(g, gen.rand_rgb(g), g.choice((0.25, 0.5, 0.75)), g.choice(gen.CSS_ALPHA_SPELLINGS))[0]
+        for n in sorted(tree):
+            if tree[n].get("ast") and g.random() < 0.8:
+                decls = [{"p": "color", "v": txt, "imp": ""}]
+                if g.random() < 0.7:
+                    decls.append({"p": "background-color", "v": gen.spell(g, gen.rand_rgb(g))[0], "imp": ""})
+                tree[n]["ast"]["items"].append({"t": "rule", "sel": ".alpha%d" % g.randrange(100), "decls": decls})
+                tree[n]["text"] = gen.render(tree[n]["ast"])
+                tree[n]["same_alpha"] = True
     # byte-identical copies of a stylesheet elsewhere in the tree (vendored copy, dist/ mirror)
     if g.random() < 0.3:
         src = g.choice(sorted(tree))
@@ -454,6 +465,10 @@ def execute(trace):
                     bump("cross_file_var_ref")
                 if trace["tree"].get(rel, {}).get("duplicate_of"):
                     bump("duplicate_content_files")
+                if trace["tree"].get(rel, {}).get("same_alpha"):
+                    bump("same_translucent_text_in_several_files")
+                if trace["tree"].get(rel, {}).get("text", "").startswith("\ufeff"):
+                    bump("bom_files")
                 if before.get(_out_of(rel)) is not None:
                     bump("stale_output_present")
                 bump("outputs_compared")
